@@ -5,9 +5,13 @@ props = {}
 for l in open('/verif/properties.jsonl'):
     p = json.loads(l); props[p['id']] = p
 kf = json.load(open('/verif/known_findings.json'))['findings']
-seeds = {}
+seeds = {}      # check id -> [(seed name, aimed-at property)] it reports (rc = 1 in the sweep)
 for d in sorted(glob.glob('/verif/seeded/*/meta.json')):
-    m = json.load(open(d)); seeds.setdefault(m.get('property'), []).append(m)
+    m = json.load(open(d))
+    name = os.path.basename(os.path.dirname(d))
+    for chk_id, r in (m.get('sweep') or {}).items():
+        if isinstance(r, dict) and r.get('rc') == 1:
+            seeds.setdefault(chk_id, []).append((name, m.get('property')))
 man = json.load(open('/verif/MANIFEST.json'))
 chk = {c['property_id']: c for c in man['checks']}
 out = ["## 6. Per-property: what decides it, what it covers, what it assumes\n",
@@ -30,5 +34,6 @@ for pid in sorted(props):
         out.append("")
     ss = seeds.get(pid, [])
     if ss:
-        out.append("*Seeded changes reported by this check:* " + ", ".join("`%s`" % s['name'] for s in ss if s.get('name')) + ".\n")
+        out.append("*Seeded changes and fix reverts this check reports (quick tier):* " + ", ".join(
+            "`%s`%s" % (n, "" if a == pid else " (aimed at %s)" % a) for n, a in ss) + ".\n")
 open('/verif/doc/design/sec6.md', 'w').write("\n".join(out) + "\n")
